@@ -37,16 +37,17 @@ class _State:
         self.definedness = []  # (kind, term) obligations: denominators / radicands met
         self.track_defined = False
         self.uf_axioms = True
+        self.float_placeholder = None  # value returned by float() of a symbolic scalar (ONLY for code that merely formats it)
 
 
 ST = _State()
 
 
 def reset(keep_mode=False):
-    mode = (ST.sqrt_mode, ST.piecewise, ST.track_defined)
+    mode = (ST.sqrt_mode, ST.piecewise, ST.track_defined, ST.float_placeholder)
     ST.__init__()
     if keep_mode:
-        ST.sqrt_mode, ST.piecewise, ST.track_defined = mode
+        ST.sqrt_mode, ST.piecewise, ST.track_defined, ST.float_placeholder = mode
 
 
 def fresh(prefix, sort="real"):
@@ -543,6 +544,25 @@ def implements(*fs):
 _INPLACE_OK = {"__setitem__"}
 
 
+def _called_from_augmented_assignment():
+    """is the innermost frame outside torch/symtorch currently executing an in-place BINARY_OP (x -= y)?"""
+    import sys
+    import dis
+
+    f = sys._getframe(1)
+    while f is not None and ("/torch/" in f.f_code.co_filename or f.f_code.co_filename.endswith("symtorch.py")):
+        f = f.f_back
+    if f is None:
+        return False
+    code = f.f_code.co_code
+    i = f.f_lasti
+    # skip backwards over inline CACHE entries
+    op, arg = code[i], code[i + 1]
+    if dis.opname[op] == "BINARY_OP":
+        return arg >= 13  # NB_INPLACE_ADD .. NB_INPLACE_XOR
+    return False
+
+
 class SymTensor:
     __array_priority__ = 1000
     requires_grad = False
@@ -572,7 +592,14 @@ class SymTensor:
         if name and hasattr(SymTensor, name):
             a0 = args[0]
             if not isinstance(a0, SymTensor):
-                if name.endswith("_") and not name.endswith("__") or name in ("__setitem__", "__iadd__", "__isub__", "__imul__", "__itruediv__"):
+                if name in ("__iadd__", "__isub__", "__imul__", "__itruediv__") or (name in ("add_", "sub_", "mul_", "div_") and _called_from_augmented_assignment()):
+                    name = {"add_": "__iadd__", "sub_": "__isub__", "mul_": "__imul__", "div_": "__itruediv__"}.get(name, name)
+                    # augmented assignment on a concrete tensor with a symbolic operand: Python rebinds the name to the
+                    # returned object, so a fresh symbolic result is protocol-compliant (aliases of the old tensor would
+                    # not see the update; none of the encoded code relies on that)
+                    a0 = SymTensor(to_obj(a0), a0.dtype == torch.bool)
+                    return getattr(a0, {"__iadd__": "__add__", "__isub__": "__sub__", "__imul__": "__mul__", "__itruediv__": "__truediv__"}[name])(*args[1:], **kwargs)
+                if name.endswith("_") and not name.endswith("__") or name in ("__setitem__",):
                     raise NotImplementedError(
                         "symtorch: in-place %s on a concrete tensor with a symbolic operand (create it under symbolic_factories)" % name
                     )
@@ -686,8 +713,8 @@ class SymTensor:
             return SymTensor(_f_ite(self.a, to_obj(1), to_obj(0)), False)
         if dt in (torch.float64, torch.float32, torch.float16):
             return self
-        # integer casts of symbolic reals are only sound when the value is concrete
-        return self
+        # integer cast truncates toward zero (identity on integral values)
+        return self.trunc()
 
     def type(self, dt=None, **k):
         if dt is None:
@@ -735,6 +762,8 @@ class SymTensor:
         s = z3.simplify(val(self.a.reshape(-1)[0]))
         if _is_const(s):
             return float(_frac(s))
+        if ST.float_placeholder is not None:
+            return ST.float_placeholder
         raise TypeError("symbolic value has no float()")
 
     def __bool__(self):
@@ -1010,6 +1039,26 @@ class SymTensor:
 
     neg = __neg__
 
+    # floor division / remainder with Python (= torch.remainder) semantics: a = b*floor(a/b) + (a mod b)
+    def __floordiv__(s, o):
+        return s._bin(o, np.frompyfunc(lambda a, b: z3.ToReal(z3.ToInt(val(a) / val(b))), 2, 1))
+
+    floor_divide = __floordiv__
+
+    def __mod__(s, o):
+        return s._bin(o, np.frompyfunc(lambda a, b: val(a) - val(b) * z3.ToReal(z3.ToInt(val(a) / val(b))), 2, 1))
+
+    remainder = __mod__
+
+    def floor(s):
+        return SymTensor(np.frompyfunc(lambda a: z3.ToReal(z3.ToInt(val(a))), 1, 1)(to_obj(s)))
+
+    def ceil(s):
+        return SymTensor(np.frompyfunc(lambda a: -z3.ToReal(z3.ToInt(-val(a))), 1, 1)(to_obj(s)))
+
+    def trunc(s):
+        return SymTensor(np.frompyfunc(lambda a: z3.If(val(a) >= 0, z3.ToReal(z3.ToInt(val(a))), -z3.ToReal(z3.ToInt(-val(a)))), 1, 1)(to_obj(s)))
+
     def __pos__(s):
         return s
 
@@ -1215,6 +1264,10 @@ class SymTensor:
 
     def __xor__(s, o):
         return SymTensor(_f_xor(*np.broadcast_arrays(s.a, _bool_obj(o))), True)
+
+    def nonzero(s, as_tuple=False):
+        m = concretize_mask(s if s.isbool else s._cast(torch.bool))
+        return torch.nonzero(torch.from_numpy(m), as_tuple=as_tuple)
 
     def isnan(s):
         return SymTensor(_zeros(s.a.shape, True), True)
